@@ -32,6 +32,18 @@ CHECKS = {
     "C07": dict(cat="model_checking", tech="TLC trace validation of per-step Krylov measurements (A V = V H + f e', V'BV = I, V'Bf = 0, shape, advertised k) against Krylov actions of the spec",
                 text="At FacInit, every FacStep, FacDone, CompressV of every recorded solver run the harness measures the three identities in long double with its own copy of the operator; the trace spec tracks k through compress_H/compress_V and judges the measurements (bound grows with the number of restarts), the Hessenberg/tridiagonal shape and the advertised dimension.",
                 ref="6 C07"),
+    "C08": dict(cat="model_checking", tech="TLC judges measured QR identities and exact structural facts of UpperHessenbergQR/TridiagQR/DoubleShiftQR runs against QRKernels.tla",
+                text="Per-kernel numerical statement: the specification decides exactly the logic_error protocol, the exact zero structure of R and Q'HQ and bit-exact identities on generalized-permutation inputs (trivial rotations); orthogonality, QR = H - sI, similarity, the six apply methods and the double-shift first-column condition are measured in long double on 12 families x 3 shift kinds x 3 scalar types and judged by the spec's c n eps (||H|| + |s|) formulas (sampling of inputs, not proof).",
+                ref="6 C08"),
+    "C09": dict(cat="model_checking", tech="TLC judges measured backward errors and exact pairing conventions of TridiagEigen/UpperHessenbergSchur/UpperHessenbergEigen against QRKernels.tla",
+                text="Exact from the returned bits: zero imaginary parts, adjacent exact conjugates with positive part first, quasi-triangular T with standardised 2x2 blocks, failure only by runtime_error; measured and judged: T Z = Z D, U T U' = H, H x = lambda x, orthogonality, on sizes 2..64, 12 entry patterns (zero matrix, defective 2x2 blocks with zero discriminant, Jordan, companion, graded, deflated, 1e+-100 scalings), 3 scalar types (sampling of inputs, not proof).",
+                ref="6 C09"),
+    "C10": dict(cat="model_checking", tech="exhaustive small integer matrices with TLC's exact determinant as nonsingularity oracle + measured residuals + four storage variants bit-identical (BKLDLT.tla)",
+                text="All symmetric matrices of order <= 3 over {-1,0,1,2} and (strided) order 4 over {-1,0,1} with shifts 0/1: TLC computes the integer determinant; nonsingular => Successful with small residual, singular ternary => NumericalIssue; Lower/Upper x ColMajor/RowMajor give bit-identical solutions (unused triangle poisoned); measured families (SPD, indefinite, zero diagonal, anti-diagonal, block-diagonal, graded, integer, pivot-branch) sizes 1..80 real and complex; status protocol and wrapper exceptions; recompute independent of history.",
+                ref="6 C10"),
+    "C11": dict(cat="model_checking", tech="configuration-space completeness checked by TLC against MatOp.tla + exact integer products computed by the spec + measured solves with poison-independence digests",
+                text="Every product wrapper configuration on integer data with the unused triangle poisoned: the spec computes Sym(A,uplo) x / A x / Hermitian products itself and the result must agree exactly; every solve wrapper configuration (incl. all 64 SymShiftInvert combinations, both Cholesky solves, CG inverse, the five composite generalized operators): residual of the defining equation judged with the condition number, digest independent of the unused triangle, re-factorization on the same object; TLC checks that the exercised configuration set equals the enumerated space.",
+                ref="6 C11"),
     "C12": dict(cat="model_checking", tech="exhaustive argument tables of the real constructors/init/compute checked row by row by TLC against ArgCheck.tla",
                 text="12 solver classes x n in 1..12 x (nev, ncv) in [-2, n+3]^2, SVD shapes up to 6x6, square-only wrappers for every shape up to 4x4, sigma = 0 in buckling/Cayley, zero start vector, nine rules x {selection, sorting} x maxit in {0,1,30} x seven classes: outcome must be accept / std::invalid_argument exactly as documented, rejected constructions leave no live heap block, the object is usable after a rejected compute().",
                 ref="6 C12"),
@@ -41,12 +53,24 @@ CHECKS = {
     "C14": dict(cat="model_checking", tech="fault enumeration at every operator application index, traces validated by TLC (OpThrows action), digest equality with the fault-free baseline",
                 text="For six solver classes the wrapper throws a tagged exception at application k for k over the fault-free run's applications (every 3rd/7th in quick, all and pairs in thorough): the same exception reaches the caller, the event prefix is a behaviour of the spec with OpThrows, and init(); compute() afterwards reproduces the fault-free digest; repeated identical executions leave the same number of live heap blocks.",
                 ref="6 C14"),
+    "C15": dict(cat="model_checking", tech="Davidson.tla design model of the search-space bookkeeping + TLC validation of recorded runs with true residuals",
+                text="Design model: for all (n <= 12, nev, initial, maximal) in the documented domain the small eigenproblem always has at least nev and at most n basis vectors, iterations bounded, documented status. Runs (dense/sparse, four rules, restarts, user guesses, second compute on the same object, correction size below nev): Successful implies compute() = nev, every true residual (recomputed from the harness' own A in long double) below tol, unit norm, orthonormal, ordered by the rule, and the returned set is the wanted end of the reference spectrum; results always finite.",
+                ref="6 C15"),
+    "C16": dict(cat="model_checking", tech="PartialSVD.tla design model of the compute/matrix_U/matrix_V cache protocol (with negative control) + TLC validation of recorded runs against a long double reference SVD",
+                text="Design model: every sequence of compute/matrix_U/matrix_V up to 6 calls reads the most recent computation and min(k, nconv) columns. Runs (tall/wide/square, dense col/row-major, sparse, rank-deficient, close singular values with partial convergence, two compute() calls per object): finite non-negative non-increasing singular values matching the reference, U'U = V'V = I, AV = US, A'U = VS, column counts for every k and call order, bit-identical to a fresh solver after a second compute().",
+                ref="6 C16"),
+    "C17": dict(cat="model_checking", tech="LOBPCG.tla shape-algebra design model (with negative control) + TLC validation of recorded runs against a long double generalized reference",
+                text="Design model: all n <= 14, 5k < n, block-size sequences: every product conformable, eigenvectors() is n x k, residuals() n x k. Runs (sparse symmetric incl. indefinite A, SPD B, preconditioner): when info() reports success the eigenvalues are the k smallest ascending, X is n x k with X'BX = I, residuals() = AX - BX Lambda with column norms below tol*n.",
+                ref="6 C17"),
     "C18": dict(cat="model_checking", tech="exhaustive table of the real argsort/SortEigenvalue checked row by row by TLC against SelectionRule.tla (relation, not transcription)",
                 text="Every vector of length 0..7 over the tie-rich alphabets x 9 rules x {argsort, SortEigenvalue<real>, SortEigenvalue<complex>}: permutation, ordered by the rule's exact integer key, BothEnds prefix property for every k, rejection of undefined rules; plus random long vectors. The oracle's satisfiability is model-checked.",
                 ref="6 C18"),
     "C19": dict(cat="model_checking", tech="ParkMiller.tla (independent double-and-add definition, primitive-root proof by TLC) + full 2^31-2 cycle walk certified at 1024 checkpoints + sampled transitions, seeds, draws, call-site streams",
                 text="TLC proves 16807 is a primitive root mod 2^31-1 (single cycle) and Next = Schrage on structured samples; the real next_long_rand is walked over the whole cycle with TLC certifying every 2^21-th state and the end point; seeds of the library's forms normalise into 1..M-1; draws lie in [-0.5,0.5] and equal state/M; the start vector of default init() of three solver classes is the seed-0 stream for first, second and repeated use.",
                 ref="6 C19"),
+    "C20": dict(cat="model_checking", tech="Threads.tla interleaving model over the code's location map (with negative control) + event-for-event identity of concurrent and sequential hook traces",
+                text="Design model: all interleavings of 3 solver instances; private operators and a shared product wrapper are conflict free, a shared shift-solve wrapper is not (negative control). Runs: 2/4/8/16 threads, private or one shared fresh Dense/Sparse Sym/Gen product wrapper, generic and breakdown-heavy jobs: each job's per-thread hook-event stream digest and result digest equal those of the job run alone.",
+                ref="6 C20"),
 }
 
 NOT_BUILT = "not built yet in this session (work in progress; DESIGN.md section 10 gives the order)"
